@@ -6,6 +6,7 @@
 #ifndef VERIF_ENGINE_CLASSES_C15X_HH
 #define VERIF_ENGINE_CLASSES_C15X_HH 1
 #include "engine/classes.hh"
+#include "interfaces/interfaced_boxes.hh"
 #include <cmath>
 #include <cfloat>
 #include <limits>
@@ -544,6 +545,134 @@ inline ClassAdapter<PPL::OR_Matrix<N> > or_matrix_adapter(const std::string& nam
   VX_BIN("m_swap(copy of arg)", [](D& m, const D* a) { D t(*a); m.m_swap(t); return std::string(); });
   VX_BINOBS("operator==", [](D& m, const D* a) { return b2s(m == *a); });
   fill_io_x<D>(A, []() { return new D(0); }, [](const D& a, const D& b) { return a == b; }, [](const D& m) { return io_print(m); });
+  return A;
+}
+
+// ---------------------------------------------------------------------------------------------------
+// (c) intervals (the elements of Box dumps) and boxes over non-rational intervals
+template <class T> struct RawMenu;
+template <> struct RawMenu<mpq_class> { static std::vector<std::pair<std::string, mpq_class> > get() {
+  std::vector<std::pair<std::string, mpq_class> > v; v.push_back(std::make_pair("0", mpq_class(0))); v.push_back(std::make_pair("1/3", mpq_class(1, 3)));
+  v.push_back(std::make_pair("-7/2", mpq_class(-7, 2))); v.push_back(std::make_pair("(2^70+3)/3", mpq_class((mpz_class(1) << 70) + 3, 3))); v.push_back(std::make_pair("2", mpq_class(2))); return v; } };
+template <> struct RawMenu<mpz_class> { static std::vector<std::pair<std::string, mpz_class> > get() {
+  std::vector<std::pair<std::string, mpz_class> > v; v.push_back(std::make_pair("0", mpz_class(0))); v.push_back(std::make_pair("7", mpz_class(7)));
+  v.push_back(std::make_pair("-2^70-3", mpz_class(-(mpz_class(1) << 70) - 3))); v.push_back(std::make_pair("-1", mpz_class(-1))); return v; } };
+template <class F> inline std::vector<std::pair<std::string, F> > raw_float_menu() {
+  typedef std::numeric_limits<F> L; std::vector<std::pair<std::string, F> > v;
+  v.push_back(std::make_pair("0", F(0))); v.push_back(std::make_pair("1.5", F(1.5))); v.push_back(std::make_pair("-0.0", -F(0))); v.push_back(std::make_pair("0.1", F(0.1)));
+  v.push_back(std::make_pair("denorm_min", L::denorm_min())); v.push_back(std::make_pair("-min_normal", -L::min())); v.push_back(std::make_pair("max", L::max()));
+  v.push_back(std::make_pair("-max", -L::max())); v.push_back(std::make_pair("+inf", L::infinity())); v.push_back(std::make_pair("-inf", -L::infinity()));
+  return v; }
+template <> struct RawMenu<double> { static std::vector<std::pair<std::string, double> > get() { return raw_float_menu<double>(); } };
+template <> struct RawMenu<float> { static std::vector<std::pair<std::string, float> > get() { return raw_float_menu<float>(); } };
+template <class I> inline std::vector<std::pair<std::string, I> > raw_int_menu() {
+  typedef std::numeric_limits<I> L; std::vector<std::pair<std::string, I> > v;
+  v.push_back(std::make_pair("0", I(0))); v.push_back(std::make_pair("5", I(5))); v.push_back(std::make_pair("-1", I(-1)));
+  v.push_back(std::make_pair("max", L::max())); v.push_back(std::make_pair("min", L::min())); v.push_back(std::make_pair("max-1", I(L::max() - 1)));
+  return v; }
+template <> struct RawMenu<int8_t> { static std::vector<std::pair<std::string, int8_t> > get() { return raw_int_menu<int8_t>(); } };
+template <> struct RawMenu<int32_t> { static std::vector<std::pair<std::string, int32_t> > get() { return raw_int_menu<int32_t>(); } };
+
+template <class ITV> inline std::string itv_flags(const ITV& x) {
+  std::string s;
+  s += x.is_empty() ? "E" : "e";
+  if (!x.is_empty()) { s += x.is_singleton() ? "S" : "s"; s += x.lower_is_open() ? "(" : "["; s += x.upper_is_open() ? ")" : "]";
+    s += x.lower_is_boundary_infinity() ? "L" : "l"; s += x.upper_is_boundary_infinity() ? "U" : "u"; s += x.is_bounded() ? "B" : "b"; s += x.is_universe() ? "V" : "v";
+    s += x.is_topologically_closed() ? "C" : "c"; }
+  return s;
+}
+
+template <class ITV, class T> inline int itv_build1(ITV& x, PPL::Relation_Symbol r, T v) { return (int)x.build(PPL::i_constraint(r, v)); }
+template <class ITV, class T> inline int itv_add1(ITV& x, PPL::Relation_Symbol r, T v) { return (int)x.add_constraint(PPL::i_constraint(r, v)); }
+template <class ITV, class T> inline int itv_build2(ITV& x, PPL::Relation_Symbol r1, T v1, PPL::Relation_Symbol r2, T v2) { return (int)x.build(PPL::i_constraint(r1, v1), PPL::i_constraint(r2, v2)); }
+
+template <class ITV>
+inline ClassAdapter<ITV> interval_adapter(const std::string& name) {
+  typedef ITV D; typedef Mut<D> M; typedef typename ITV::boundary_type T;
+  ClassAdapter<D> A; A.name = name;
+  std::vector<std::pair<std::string, T> > vals = RawMenu<T>::get();
+  const bool has_open = ITV::info_type::store_open;
+  using PPL::i_constraint;
+  T v0 = vals[0].second, v1 = vals[1].second, v2 = vals[2].second, v3 = vals[3].second;
+  VX_INIT("universe", []() { D* x = new D(); x->assign(PPL::UNIVERSE); return x; });
+  VX_INIT("empty", []() { D* x = new D(); x->assign(PPL::EMPTY); return x; });
+  VX_INIT("singleton " + vals[1].first, [v1]() { D* x = new D(); x->assign(v1); return x; });
+  VX_INIT("[" + vals[2].first + "," + vals[1].first + "] or reversed", [v1, v2]() { D* x = new D(); if (v2 < v1) itv_build2(*x, PPL::GREATER_OR_EQUAL, v2, PPL::LESS_OR_EQUAL, v1); else itv_build2(*x, PPL::GREATER_OR_EQUAL, v1, PPL::LESS_OR_EQUAL, v2); return x; });
+  VX_INIT("lower bounded by " + vals[0].first + " (strict if supported)", [v0, has_open]() { D* x = new D(); itv_build1(*x, has_open ? PPL::GREATER_THAN : PPL::GREATER_OR_EQUAL, v0); return x; });
+  VX_INIT("upper bounded by " + vals[3].first + ", emptiness queried", [v3]() { D* x = new D(); itv_build1(*x, PPL::LESS_OR_EQUAL, v3); (void)x->is_empty(); (void)x->is_singleton(); return x; });
+  VX_INIT("constructed from " + vals[2].first, [v2]() { return new D(v2); });
+  VX_MUT("assign(UNIVERSE)", [](D& x, const D*) { return std::to_string((int)x.assign(PPL::UNIVERSE)); });
+  VX_MUT("assign(EMPTY)", [](D& x, const D*) { return std::to_string((int)x.assign(PPL::EMPTY)); });
+  for (size_t k = 0; k < vals.size(); ++k) {
+    T v = vals[k].second; std::string n = vals[k].first;
+    VX_MUT("build(>=" + n + ")", [v](D& x, const D*) { return std::to_string(itv_build1(x, PPL::GREATER_OR_EQUAL, v)); });
+    VX_MUT("add_constraint(<=" + n + ")", [v](D& x, const D*) { return std::to_string(itv_add1(x, PPL::LESS_OR_EQUAL, v)); });
+    if (has_open) {
+      VX_MUT("add_constraint(>" + n + ")", [v](D& x, const D*) { return std::to_string(itv_add1(x, PPL::GREATER_THAN, v)); });
+      if (k % 2 == 0) VX_MUT("build(<" + n + ")", [v](D& x, const D*) { return std::to_string(itv_build1(x, PPL::LESS_THAN, v)); });
+    }
+    if (k % 3 == 0) VX_MUT("assign(" + n + ")", [v](D& x, const D*) { return std::to_string((int)x.assign(v)); });
+    if (k % 3 == 1) VX_MUT("join_assign(" + n + ")", [v](D& x, const D*) { return std::to_string((int)x.join_assign(v)); });
+    if (k % 3 == 2) VX_MUT("add_assign(x," + n + ")", [v](D& x, const D*) { return std::to_string((int)x.add_assign(x, v)); });
+  }
+  VX_MUT("lower_extend()", [](D& x, const D*) { return std::to_string((int)x.lower_extend()); });
+  VX_MUT("upper_extend()", [](D& x, const D*) { return std::to_string((int)x.upper_extend()); });
+  VX_MUT("neg_assign(x)", [](D& x, const D*) { return std::to_string((int)x.neg_assign(x)); });
+  VX_MUT("mul_assign(x," + vals[1].first + ")", [v1](D& x, const D*) { return std::to_string((int)x.mul_assign(x, v1)); });
+  VX_MUT("topological_closure_assign()", [](D& x, const D*) { x.topological_closure_assign(); return std::string(); });
+  VX_MUT("drop_some_non_integer_points()", [](D& x, const D*) { x.drop_some_non_integer_points(); return std::string(); });
+  VX_MUT("refine_existential(<," + vals[1].first + ")", [v1](D& x, const D*) { return std::to_string((int)x.refine_existential(PPL::LESS_THAN, v1)); });
+  VX_MUT("refine_existential(!=," + vals[0].first + ")", [v0](D& x, const D*) { return std::to_string((int)x.refine_existential(PPL::NOT_EQUAL, v0)); });
+  VX_OBS("flags", [](D& x, const D*) { return itv_flags(x); });
+  VX_OBS("is_empty()", [](D& x, const D*) { return b2s(x.is_empty()); });
+  VX_OBS("is_singleton()", [](D& x, const D*) { if (x.is_empty()) return std::string("skipped"); return b2s(x.is_singleton()); });
+  VX_OBS("print", [](D& x, const D*) { return io_print(x); });
+  VX_OBS("contains_integer_point()", [](D& x, const D*) { return b2s(x.contains_integer_point()); });
+  VX_OBS("infinity_sign()", [](D& x, const D*) { return std::to_string(x.infinity_sign()); });
+  VX_OBS("contains(" + vals[0].first + ")", [v0](D& x, const D*) { return b2s(x.contains(v0)); });
+  VX_OBS("OK()", [](D& x, const D*) { return b2s(x.OK()); });
+  VX_BIN("assign", [](D& x, const D* a) { return std::to_string((int)x.assign(*a)); });
+  VX_BIN("join_assign", [](D& x, const D* a) { return std::to_string((int)x.join_assign(*a)); });
+  VX_BIN("intersect_assign", [](D& x, const D* a) { return std::to_string((int)x.intersect_assign(*a)); });
+  VX_BIN("difference_assign", [](D& x, const D* a) { return std::to_string((int)x.difference_assign(*a)); });
+  VX_BIN("add_assign(x,arg)", [](D& x, const D* a) { return std::to_string((int)x.add_assign(x, *a)); });
+  VX_BIN("sub_assign(arg,x)", [](D& x, const D* a) { return std::to_string((int)x.sub_assign(*a, x)); });
+  VX_BIN("mul_assign(x,arg)", [](D& x, const D* a) { return std::to_string((int)x.mul_assign(x, *a)); });
+  VX_BIN("simplify_using_context_assign", [](D& x, const D* a) { return b2s(x.simplify_using_context_assign(*a)); });
+  VX_BINOBS("contains", [](D& x, const D* a) { return b2s(x.contains(*a)); });
+  VX_BINOBS("strictly_contains", [](D& x, const D* a) { return b2s(x.strictly_contains(*a)); });
+  VX_BINOBS("is_disjoint_from", [](D& x, const D* a) { return b2s(x.is_disjoint_from(*a)); });
+  VX_BINOBS("operator==", [](D& x, const D* a) { return b2s(x == *a); });
+  VX_BINOBS("can_be_exactly_joined_to", [](D& x, const D* a) { return b2s(x.can_be_exactly_joined_to(*a)); });
+  fill_io_x<D>(A, []() { D* x = new D(); x->assign(PPL::UNIVERSE); return x; }, [](const D& a, const D& b) { return a == b; }, [](const D& d) { return io_print(d) + " " + itv_flags(d); });
+  return A;
+}
+
+template <> struct DomTraits<PPL::Double_Box> { static const bool strict = true, grid = false, poly = false, powerset = false, product = false; };
+template <> struct DomTraits<PPL::Float_Box> { static const bool strict = true, grid = false, poly = false, powerset = false, product = false; };
+
+// boxes over non-rational intervals: the generic domain alphabet + operations that store special boundary values
+template <class BOX>
+inline ClassAdapter<BOX> xbox_adapter(const std::string& name) {
+  typedef BOX D; typedef Mut<D> M; typedef typename BOX::interval_type ITV; typedef typename ITV::boundary_type T;
+  ClassAdapter<D> A = domain_adapter<D>(name);
+  Variable x(0), y(1);
+  std::vector<std::pair<std::string, T> > vals = RawMenu<T>::get();
+  Coefficient huge(1); huge <<= 1030; Coefficient big(1); big <<= 1070;
+  VX_MUT("refine_with_constraint(3A>=1)", [x](D& d, const D*) { d.refine_with_constraint(3 * x >= 1); return std::string(); });
+  VX_MUT("refine_with_constraint(A<=2^1030)", [x, huge](D& d, const D*) { d.refine_with_constraint(x <= huge); return std::string(); });
+  VX_MUT("refine_with_constraint(B>=-2^1030)", [y, huge](D& d, const D*) { d.refine_with_constraint(y >= -huge); return std::string(); });
+  VX_MUT("refine_with_constraint(2^1070*A>=1)", [x, big](D& d, const D*) { d.refine_with_constraint(big * x >= 1); return std::string(); });
+  VX_MUT("affine_image(A,A,3)", [x](D& d, const D*) { d.affine_image(x, Linear_Expression(x), 3); return std::string(); });
+  VX_MUT("affine_image(B,2^1030*B)", [y, huge](D& d, const D*) { d.affine_image(y, huge * y); return std::string(); });
+  for (size_t k = 0; k + 1 < vals.size(); k += 2) {
+    T lo = vals[k].second, hi = vals[k + 1].second; if (hi < lo) std::swap(lo, hi);
+    VX_MUT("set_interval(B,[" + vals[k].first + ".." + vals[k + 1].first + "])", [y, lo, hi](D& d, const D*) {
+      if (d.space_dimension() < 2) return std::string("skipped");
+      ITV i; itv_build2(i, PPL::GREATER_OR_EQUAL, lo, PPL::LESS_OR_EQUAL, hi); d.set_interval(y, i); return std::string(); });
+  }
+  VX_OBS("get_interval(A)", [x](D& d, const D*) { if (d.space_dimension() < 1 || d.is_empty()) return std::string("skipped"); return io_print(d.get_interval(x)) + " " + itv_flags(d.get_interval(x)); });
+  VX_OBS("get_interval(B)", [y](D& d, const D*) { if (d.space_dimension() < 2 || d.is_empty()) return std::string("skipped"); return io_print(d.get_interval(y)) + " " + itv_flags(d.get_interval(y)); });
   return A;
 }
 
